@@ -15,6 +15,12 @@ const STANDALONE_TAGS: [u16; 36] = [
     0x01, 0x47, 0x24, 0x02, 0x26, 0x36, 0x03, 0x04, 0x0f, 0x1f, 0x10, 0x37, 0x42, 0x12, 0x13, 0x16, 0x17, 0x3b, 0x35, 0x44, 0x1a, 0x46, 0x29, 0x4b, 0x38, 0x20, 0x40, 0x15, 0x2d, 0x43, 0x2b, 0x39, 0x3d, 0x08, 0x3a, 0x1e,
 ];
 
+/// Every entry tag of DWARF 2-5 except the unit tags, plus GNU/UPC vendor tags.
+const ALL_TAGS: [u16; 74] = [
+    0x01, 0x02, 0x03, 0x04, 0x05, 0x08, 0x0a, 0x0b, 0x0d, 0x0f, 0x10, 0x12, 0x13, 0x15, 0x16, 0x17, 0x18, 0x19, 0x1a, 0x1b, 0x1c, 0x1d, 0x1e, 0x1f, 0x20, 0x21, 0x22, 0x23, 0x24, 0x25, 0x26, 0x27, 0x28, 0x29, 0x2a, 0x2b, 0x2c, 0x2d, 0x2e, 0x2f, 0x30,
+    0x31, 0x32, 0x33, 0x34, 0x35, 0x36, 0x37, 0x38, 0x39, 0x3a, 0x3b, 0x3d, 0x3f, 0x40, 0x42, 0x43, 0x44, 0x45, 0x46, 0x47, 0x48, 0x49, 0x4b, 0x4106, 0x4107, 0x4108, 0x4109, 0x410a, 0x8765, 0x4101, 0x4102, 0x4103, 0x4104,
+];
+
 fn member_like(d: &FDie) -> bool {
     if STANDALONE_TAGS.contains(&d.tag) {
         return false;
@@ -218,6 +224,9 @@ fn gen_c19(ch: &mut Choices) -> FDwarf {
             }
             if ch.chance(60) {
                 u.dies[i].tag = ch.pick(&[0x39u16, 0x39, 0x13, 0x2e, 0x34, 0x0d, 0x05, 0x0b]);
+            } else if ch.chance(70) {
+                // any tag of DWARF 2-5 and the common vendor tags, so that every tag of both categories occurs
+                u.dies[i].tag = ALL_TAGS[ch.below(ALL_TAGS.len())];
             }
         }
     }
@@ -243,7 +252,7 @@ fn check(ch: &mut Choices, cx: &mut Ctx) -> R {
         return Ok(());
     }
     let all: Vec<Target> = d.units.iter().enumerate().flat_map(|(ui, u)| (1..u.dies.len()).map(move |i| (ui, i))).collect();
-    if all.len() <= 5 {
+    if all.len() <= 6 {
         cx.label("every subset of required entries");
         for mask in 0..(1u32 << all.len()) {
             let req: BTreeSet<Target> = all.iter().enumerate().filter(|(i, _)| mask >> i & 1 == 1).map(|(_, t)| *t).collect();
@@ -268,7 +277,7 @@ impl Prop for C19 {
         "C19"
     }
     fn rule(&self) -> &'static str {
-        "assembler-built forests of 1-3 units x 1-9 entries (versions 2-5, both formats) with generated nesting, a tag mix over both categories (namespaces, types, subprogram definitions and declarations vs variables, members, parameters, blocks, enumerators, call sites), references in-unit and cross-unit in every reference form, cycles, references from expressions (call2/4, call_ref, typed operations, implicit_pointer, parameter_ref, nested entry_value) and from location lists in both section generations; required sets: every subset when there are <= 5 entries, otherwise three generated subsets of different density and one singleton. Oracle: an independent reachability closure over the model (required entries, their ancestors, everything retained entries refer to, member-like children of retained non-namespace entries); the identity markers present in the read-back output must equal the closure exactly (no missing entry, no unneeded entry), parents must be the original parents, attributes must equal the input's by meaning (the C12 dump), no reference may dangle, and conversion + write must succeed whenever the unfiltered conversion does. Non-trivial = the closure is strictly larger than the required set and strictly smaller than the forest; distinct by choice string."
+        "assembler-built forests of 1-3 units x 1-9 entries (versions 2-5, both formats) with generated nesting, a tag mix over both categories (namespaces, types, subprogram definitions and declarations vs variables, members, parameters, blocks, enumerators, call sites), references in-unit and cross-unit in every reference form, cycles, references from expressions (call2/4, call_ref, typed operations, implicit_pointer, parameter_ref, nested entry_value) and from location lists in both section generations; required sets: every subset when there are <= 6 entries, otherwise three generated subsets of different density and one singleton. Oracle: an independent reachability closure over the model (required entries, their ancestors, everything retained entries refer to, member-like children of retained non-namespace entries); the identity markers present in the read-back output must equal the closure exactly (no missing entry, no unneeded entry), parents must be the original parents, attributes must equal the input's by meaning (the C12 dump), no reference may dangle, and conversion + write must succeed whenever the unfiltered conversion does. Non-trivial = the closure is strictly larger than the required set and strictly smaller than the forest; distinct by choice string."
     }
     fn assumptions(&self) -> Vec<&'static str> {
         vec![
